@@ -389,9 +389,15 @@ func runChild(c Case, res *Result) {
 						setErr.Add(1)
 					}
 				}
-				if p == 1 && nApp > 0 {
+				if nApp > 0 {
 					for j := 0; j < nApp; j++ {
-						if s == (j+1)*c.N/(nApp+2)+1 {
+						// even cases: producer 1 appends one member after the other; odd cases: the members are appended by
+						// different producers at the same message index, i.e. concurrently
+						due := p == 1 && s == (j+1)*c.N/(nApp+2)+1
+						if c.Idx%2 == 1 {
+							due = p == j%c.P+1 && s == c.N/3+1
+						}
+						if due {
 							if e := b.appendFns[j](); e != nil {
 								setErr.Add(1)
 							} else {
